@@ -14,6 +14,14 @@ Theorem C04_run_outcome_is_history_independent :
 Proof. exact last_run_history_independent. Qed.
 Print Assumptions C04_run_outcome_is_history_independent.
 
+(* also after the configuration was re-declared on the used object through the configPath setter (which drops the cached matrices and
+   shelf vector): the next run yields what a fresh object with that seed yields *)
+Theorem C04_run_after_reconfiguration_is_history_independent :
+  forall h d o,
+  snd (run d (set_config (fst (history run o h)))) = expected (seed_after (o_seed o) h) (o_N o) (o_var o).
+Proof. exact run_after_set_config. Qed.
+Print Assumptions C04_run_after_reconfiguration_is_history_independent.
+
 (* and this holds for EVERY run inside any history, not only the last *)
 Theorem C04_every_run_of_a_history :
   forall h o,
